@@ -1,6 +1,7 @@
 ---------------------------- MODULE MC_Restricted ----------------------------
 (* Bounded instance of Restricted.tla.  One state per case; the parts:                                 *)
 (*   "num"     every restricted number type with 1..MaxCmp comparisons x every candidate value         *)
+(*   "named"   the predefined types PositiveInt ... OpenUnitInterval (typing.py:361-370)               *)
 (*   "create"  well- and ill-formed restriction specifications                                         *)
 (*   "str"     regular expressions x every string over a small alphabet up to StrLen (+ non-strings)   *)
 (*   "reg"     registered types x values of their (abstract) value spaces, three channels              *)
@@ -12,7 +13,9 @@ CONSTANTS MaxCmp,     \* comparisons per restriction set: 1..MaxCmp
           StrLen,     \* strings up to this length
           HazLen,     \* hazard texts (paths) up to this length
           B64Set,     \* "small" | "large": the alphabet of the enumerated base64 groups
-          Emit
+          Emit        \* TRUE: print every case as JSON (for the replay)
+\* NOTE: no state variable may be called like a bound identifier of Restricted.tla (i, n, t, ...): TLC would stop
+\* treating the case tables below as constants and re-evaluate them at every reference.
 
 M1 == 0 - 1
 M2 == 0 - 2
@@ -107,7 +110,7 @@ PathExtra == { <<"~">>, <<"n","u","l","l">>, <<"N","u","l","l">>, <<"1","2","3">
                <<"'","a","'">>, <<"\"","a","\"">>, <<"!","a">>, <<"&","a">>, <<"*","a">>, <<"%","a">>, <<"@","a">>, <<"`","a">>, <<">">>, <<"?"," ","a">>, <<"-"," ","a">>,
                <<"1","2","e","0","3">>, <<"1","e","3","x">>, <<"1",":">>, <<"t","r","u","e",":">>, <<"n","u","l","l",":">>, <<"~",":">>, <<"1",".","5",":">>, <<"{","1","}">>,
                <<"a",":">>, <<"1",":",":">>, <<"1",":","2",":">>, <<"0","x","_">>, <<"0","b","_">>, <<"0","_">>, <<"<","<",":">>, <<"=",":">>, <<".","_",":">>, <<"{","a","}">>, <<"{","t","r","u","e","}">>,
-               <<".","_","e","+","5">>, <<"1","_",".">>, <<"1",".","_">>, <<"-",":">>, <<"y","e","s",":">> }
+               <<".","_","e","+","5">>, <<"1"," ",":">>, <<"{"," ","1"," ","}">>, <<"1"," ","2",":">>, <<"1","_",".">>, <<"1",".","_">>, <<"-",":">>, <<"y","e","s",":">> }
 PathCases == {RV("Path", t) : t \in HazTexts \cup PathExtra}
 
 RangeInts == IF HazLen >= 4 THEN {0 - 3, M2, M1, 0, 1, 2, 3} ELSE {M2, M1, 0, 1, 2}
@@ -116,7 +119,7 @@ RangeCases == {RV("range", <<a, b, c>>) : a \in RangeInts, b \in RangeInts, c \i
 TdCases == {RV("timedelta", <<d, s, u>>) : d \in {M2, M1, 0, 1, 2, 999999999, 0 - 999999999},
                                             s \in {0, 1, 59, 60, 3599, 3600, 3661, 36000, 86399},
                                             u \in {0, 1, 100000, 500000, 999999}}
-B64A == IF B64Set = "small" THEN {"1", "e", "+", "3", "A"} ELSE {"0", "1", "3", "e", "E", "+", "n", "u", "l", "A"}
+B64A == IF B64Set = "small" THEN {"1", "e", "+", "A"} ELSE {"0", "1", "3", "e", "E", "+", "n", "u", "l", "A"}
 B64Groups == {<<a, b, c, d>> : a \in B64A, b \in B64A, c \in B64A, d \in B64A}
 B64Texts == B64Groups \cup { << >>, <<"A","A","=","=">>, <<"/","w","=","=">>, <<"A","Q","I","=">>, <<"M","W","U","=">>, <<"M","T","I","z">>,
                              <<"n","u","l","l">>, <<"t","r","u","e">>, <<"T","r","u","e">>, <<"1","2","3","4">>, <<"+","/","+","/">>, <<"1","e","3","0","1","e","3","0">>,
@@ -159,6 +162,7 @@ NumFacts(T) ==
 StrFacts(re) ==
   [acc  |-> [j \in 1..NST |-> PrefixMatch(re, StrTexts[j])],
    ld   |-> [j \in 1..NST |-> LdOf(StrTexts[j])],
+   pbr  |-> [j \in 1..NST |-> AlgParseBranch(LAMBDA y : AlgStrNew(re, y), StrV(StrTexts[j]), LdOf(StrTexts[j]))],
    full |-> [j \in 1..NST |-> FullMatch(re, StrTexts[j])],
    accx |-> [j \in 1..Len(NonStrCands) |-> RefStrAccepts(re, NonStrCands[j])],
    algx |-> [j \in 1..Len(NonStrCands) |-> AlgStrNew(re, NonStrCands[j])]]
@@ -266,9 +270,11 @@ Line ==
           ref |-> [j \in 1..NC |-> ValJ(fx.ref[j])],
           exc |-> [j \in 1..NC |-> fx.alg[j].exc],
           pexc |-> [j \in 1..NC |-> fx.pars[j].exc],
-          pacc |-> [j \in 1..NC |-> fx.pars[j].r = "ok"]]
+          pacc |-> [j \in 1..NC |-> fx.pars[j].r = "ok"],
+          br |-> [j \in 1..NC |-> AlgBranch(NumT, fx.c[j])],
+          pbr |-> [j \in 1..NC |-> AlgParseBranch(LAMBDA y : AlgNew(NumT, y), fx.c[j], LdOf(fx.c[j].t))]]
     [] part = "create" -> [part |-> part, i |-> idx, type |-> TypeJ(CreateSpecs[idx]), creates |-> fx.wf]
-    [] part = "str" -> [part |-> part, i |-> idx, acc |-> fx.acc, accx |-> fx.accx, full |-> fx.full, ld |-> fx.ld]
+    [] part = "str" -> [part |-> part, i |-> idx, acc |-> fx.acc, accx |-> fx.accx, full |-> fx.full, ld |-> fx.ld, pbr |-> fx.pbr]
     [] part = "reg" ->
          [part |-> part, i |-> idx, ty |-> RV0.ty, f |-> RV0.f,
           rep |-> [k |-> fx.rep.k, t |-> fx.rep.t, n |-> NumJ(fx.rep.n)],
